@@ -46,6 +46,19 @@ func (vc *VC) newEpoch(kind string, preds []*Epoch, conds []string) *Epoch {
 
 // memWF: every value stored in a (declared, i.e. unconstrained) memory version is a
 // well-formed Go value: slice headers are sane, pointers are allocated, integers in range.
+// rangeGhost: ghost state of one range-over-map statement. vis is a pseudo memory of sort (Array K Bool): the keys
+// produced so far. It is initialised to the empty set at the range statement, havoced with the loop, extended at
+// every iteration (which produces a present key not produced before), and at loop exit every key that was present
+// when the range statement was executed has been produced — provided the loop never deletes from a map of that
+// type (Go: an entry removed before it is reached is not produced; an entry added during the iteration may be
+// skipped; entries that stay are produced exactly once).
+type rangeGhost struct {
+	name  string
+	st    *State // state at the range statement (domain of the map when the iteration starts)
+	mapT  string
+	mt    *types.Map
+}
+
 func (vc *VC) memWF(name, ver, wm string) string {
 	t, ok := vc.enc.mems[name]
 	if !ok {
@@ -209,6 +222,7 @@ type VC struct {
 	nameCount map[string]int
 	mapLenUse int // 0 unknown, 1 yes, -1 no
 	curClo    *closureVal // closure being called (for contracts that mention captured variables)
+	rangeGhosts map[*ssa.Range]*rangeGhost // visited-set ghost state of range-over-map loops
 	callRes   map[string][]Val // results of the latest call per callee in the function under verification
 	callCount map[string]int
 	lemma     *Lemma
